@@ -23,7 +23,7 @@ git checkout -q -- src
 ok=1
 grep -q "test result: ok" /tmp/seed_$tag.without || ok=0
 grep -q "132 passed; 0 failed" /tmp/seed_$tag.lib || ok=0
-grep -q "FAILED" /tmp/seed_$tag.with || ok=0
+grep -qE "FAILED|error: test failed" /tmp/seed_$tag.with || ok=0
 if [ $ok = 0 ]; then echo "SEED NOT CONFIRMED"; exit 3; fi
 mkdir -p $out; cp SEED/patch.diff SEED/seeded_demo.rs SEED/meta.json $out/
 # run the checks against /repo with the change applied
